@@ -70,6 +70,24 @@ pub fn child_loop(spec: &ChildSpec, stack_mb: usize, mut f: impl FnMut(usize) ->
     std::process::exit(r);
 }
 
+/// Hangs and aborts cost a watchdog period each; a subject that hangs on a whole family of inputs would keep a
+/// run busy for hours. After this many hang/abort outcomes (all of them violations) the batch stops handing out
+/// work; the caller reports the truncation as a cap (`truncated()`), and the run ends with the violations found.
+static HANGS: AtomicUsize = AtomicUsize::new(0);
+static TRUNCATED: AtomicUsize = AtomicUsize::new(0);
+
+fn hang_budget() -> usize {
+    std::env::var("VCHECK_HANG_BUDGET").ok().and_then(|v| v.parse().ok()).unwrap_or(32)
+}
+
+pub fn truncated() -> Option<String> {
+    if TRUNCATED.load(Ordering::SeqCst) > 0 {
+        Some(format!("stopped after {} hang / abort outcomes (each is a reported violation); the remaining cases were not run", HANGS.load(Ordering::SeqCst)))
+    } else {
+        None
+    }
+}
+
 /// Parent side.
 pub fn run_batch(prop: &str, batch: &str, n: usize, timeout: Duration, shards: usize, extra_env: &[(&str, String)]) -> Vec<(usize, Outcome)> {
     run_batch_from(prop, batch, 0, n, timeout, shards, extra_env)
@@ -87,6 +105,10 @@ pub fn run_batch_from(prop: &str, batch: &str, first: usize, n: usize, timeout: 
             sc.spawn(|| loop {
                 let shard = next_shard.fetch_add(1, Ordering::SeqCst);
                 if shard >= shards {
+                    break;
+                }
+                if HANGS.load(Ordering::SeqCst) >= hang_budget() {
+                    TRUNCATED.store(1, Ordering::SeqCst);
                     break;
                 }
                 let progress = format!("{}/prog-{}-{}-{}-{}.txt", scratch, prop, batch.replace(|c: char| !c.is_alphanumeric(), "_"), shard, std::process::id());
@@ -181,6 +203,7 @@ pub fn run_batch_from(prop: &str, batch: &str, first: usize, n: usize, timeout: 
                                 #[cfg(not(unix))]
                                 let sig: Option<i32> = None;
                                 local.push((k, Outcome::Abort(format!("child exited with code {:?} signal {:?}", st.code(), sig))));
+                                HANGS.fetch_add(1, Ordering::SeqCst);
                                 resume = Some(k + 1);
                             } else {
                                 crate::explore::machinery(&format!("isolated child for {} {} died outside a case: {:?}", prop, batch, st));
@@ -189,6 +212,7 @@ pub fn run_batch_from(prop: &str, batch: &str, first: usize, n: usize, timeout: 
                         None => {
                             if let Some(k) = current {
                                 local.push((k, Outcome::Hang));
+                                HANGS.fetch_add(1, Ordering::SeqCst);
                                 resume = Some(k + 1);
                             } else {
                                 crate::explore::machinery(&format!("isolated child for {} {} stalled outside a case", prop, batch));
@@ -196,6 +220,10 @@ pub fn run_batch_from(prop: &str, batch: &str, first: usize, n: usize, timeout: 
                         }
                     }
                     results.lock().unwrap().extend(local);
+                    if resume.map(|k| k < n) == Some(true) && HANGS.load(Ordering::SeqCst) >= hang_budget() {
+                        TRUNCATED.store(1, Ordering::SeqCst);
+                        break;
+                    }
                     match resume {
                         Some(k) if k < n => start = k,
                         _ => break,
